@@ -274,6 +274,28 @@ def slot_access_rule(facts, rep, R1, wr, ww):
     return len([f for f in found if sorted(f[0]) == [(8, 32), (32, 1)]])
 
 
+def slot_index_width(rep, R1, wr, ww):
+    """A set has the unused entry 0 and the slots 1 ..= 256 (8 groups x 32 bits): a position in the set does not fit
+    in a byte.  Witness: the writer converts an `enumerate()` position over the set to u8 (`u8::try_from`, `as u8`)
+    with no arithmetic in between -- position 256, the last slot, is lost or wraps to 0."""
+    def positional(t):
+        return any(x[0] == "call" and x[1].endswith("Iterator::enumerate") for x in walk(t)) and not any(x[0] == "bin" for x in walk(t))
+    for bb, t in wr.calls():
+        nm = callee_names(t)[1] or ""
+        if ("TryFrom<usize> for u8" in nm or "TryFrom<u32> for u8" in nm or "TryFrom<u16> for u8" in nm) and t["args"] and positional(wr.term_of_operand(t["args"][0])):
+            rep.violation(R1, wr.name, "slot-index-narrowed",
+                          "the writer converts a position in the set to u8 (%s): slots are numbered 1 ..= 256, position 256 (group 8, bit 31) does not fit and is never flagged or written" % nm.rsplit("::", 1)[-1], ww)
+            return
+    for blk in wr.blocks:
+        for st in blk["stmts"]:
+            if st["k"] == "assign" and st["rv"].get("k") == "cast" and st.get("lty") == "u8":
+                t = wr.term_of_rvalue(st["rv"])
+                if t[0] == "cast" and positional(t[1]):
+                    rep.violation(R1, wr.name, "slot-index-narrowed",
+                                  "the writer casts a position in the set to u8: slots are numbered 1 ..= 256, position 256 (group 8, bit 31) wraps to 0", ww)
+                    return
+
+
 def run(facts, rep, ctx):
     R1 = rep.rule("R17.1", "dual structure: label constant, loop bounds, bit test/set, slot index map, one slot per bit, group/main-bit coupling, string/bit coupling", floor=11)
     R2 = rep.rule("R17.2", "space accounting: 4 bytes per emitted word per set; 12-byte header; 4 bytes per clip-table entry", floor=3)
@@ -288,6 +310,7 @@ def run(facts, rep, ctx):
     rw = "%s:%s" % (rd.file, rd.line)
     ww = "%s:%s" % (wr.file, wr.line)
     rnv, wnv = rd.named_view(), wr.named_view()
+    slot_index_width(rep, R1, wr, ww)
     # ---- label constant ---------------------------------------------------------------------------
     rl = wl = None
     for bb, t in rd.calls():
